@@ -208,7 +208,7 @@ Qed.
 
 Lemma Inv_exec_bop : forall s b, Inv s -> Inv (exec_bop s b).
 Proof.
-  intros s b H. destruct b as [d|i|i x|i x|]; cbn [exec_bop].
+  intros s b H. destruct b as [d|i|i x|i x| |]; cbn [exec_bop].
   - (* callLater *)
     destruct H as [H1 H2 H3 H4 H5]. split; simpl_st.
     + exact H1.
@@ -263,12 +263,11 @@ Proof.
     + reflexivity.
     + exact I.
   - apply Inv_emit_plain; cbn; auto.
+  - exact H.
 Qed.
 
-Lemma Inv_exec_body : forall bs s, Inv s -> Inv (fold_left exec_bop bs s).
-Proof.
-  induction bs as [|b r IH]; cbn; intros s H; [exact H|]. apply IH. apply Inv_exec_bop. exact H.
-Qed.
+Lemma Inv_exec_body : forall bs s, Inv s -> Inv (fst (run_body exec_bop bs s)).
+Proof. intros bs s H. apply (run_body_inv st exec_bop Inv Inv_exec_bop). exact H. Qed.
 
 (** a state whose heap / staging list were replaced by lists with the same active ids *)
 Lemma Inv_relist : forall s hp' nw' dc b,
@@ -339,9 +338,9 @@ Section WithBody.
     else if 0 <? cdelay c then
       mkSt (heappush ctime dcall h' (activate c)) (nw s) (cancels s) (now s) (next s) (log s) (oof s)
     else
-      emit (EEnd (cid c))
-           (fold_left exec_bop (body (cid c))
-              (mkSt h' (nw s) (cancels s) (now s) (next s) (ERun c tnow (filter active h') :: log s) (oof s))).
+      let res := run_body exec_bop (body (cid c))
+                   (mkSt h' (nw s) (cancels s) (now s) (next s) (ERun c tnow (filter active h') :: log s) (oof s)) in
+      emit (if snd res then ERaise (cid c) else EEnd (cid c)) (fst res).
 
   Lemma loop_unfold : forall f tnow s top t c h',
     hp s = top :: t -> (ctime top <=? tnow) = true -> heappop ctime dcall (top :: t) = Some (c, h') ->
@@ -384,7 +383,8 @@ Section WithBody.
           eapply perm_trans; [apply act_perm; apply Permutation_app_tail; exact Pq|].
           cbn [app]. rewrite !act_cons. unfold active, activate. cbn. apply Permutation_refl.
       + apply Z.ltb_ge in Edel. assert (Hz : cdelay c = 0) by lia.
-        apply Inv_emit_plain; cbn; auto. apply Inv_exec_body.
+        cbn zeta. apply Inv_emit_plain; try (destruct (snd _); (reflexivity || exact I)).
+        apply Inv_exec_body.
         destruct H as [H1 H2 H3 H4 H5]. split; simpl_st.
         * exact Hh'.
         * exact Hdr.
@@ -518,7 +518,7 @@ Section WithBody.
   Lemma exec_bop_hp_ids : forall (N : nat) s b,
     Forall (fun x => (cid x < N)%nat) (hp s) -> Forall (fun x => (cid x < N)%nat) (hp (exec_bop s b)).
   Proof.
-    intros N s b Hf. destruct b as [d|i|i x|i x|]; cbn [exec_bop]; try exact Hf.
+    intros N s b Hf. destruct b as [d|i|i x|i x| |]; cbn [exec_bop]; try exact Hf.
     - destruct (place_call (locate i s)) as [c|] eqn:Hpl; [|exact Hf].
       apply put_back_hp_ids with (c := c); auto.
     - destruct (place_call (locate i s)) as [c|] eqn:Hpl; [|exact Hf].
@@ -527,9 +527,9 @@ Section WithBody.
       apply put_back_hp_ids with (c := c); auto. apply delay_shape.
   Qed.
 
-  Lemma exec_bop_log : forall s b, exists e, log (exec_bop s b) = e :: log s /\ run_of e = [].
+  Lemma exec_bop_log : forall s b, log (exec_bop s b) = log s \/ exists e, log (exec_bop s b) = e :: log s /\ run_of e = [].
   Proof.
-    intros s b. destruct b as [d|i|i x|i x|]; cbn [exec_bop].
+    intros s b. destruct b as [d|i|i x|i x| |]; cbn [exec_bop]; [right|right|right|right|right|left; reflexivity].
     - eexists. split; reflexivity.
     - destruct (place_call (locate i s)) as [c|] eqn:Hpl.
       + destruct (locate i s); cbn in Hpl; try discriminate; eexists; split; reflexivity.
@@ -545,13 +545,17 @@ Section WithBody.
 
   Lemma exec_body_old : forall (N : nat) bs s,
     Forall (fun x => (cid x < N)%nat) (hp s) ->
-    Forall (fun x => (cid x < N)%nat) (hp (fold_left exec_bop bs s))
-    /\ (forall c n o, In (ERun c n o) (log (fold_left exec_bop bs s)) -> In (ERun c n o) (log s)).
+    Forall (fun x => (cid x < N)%nat) (hp (fst (run_body exec_bop bs s)))
+    /\ (forall c n o, In (ERun c n o) (log (fst (run_body exec_bop bs s))) -> In (ERun c n o) (log s)).
   Proof.
-    intros N bs. induction bs as [|b r IH]; cbn [fold_left]; intros s Hf; [split; auto|].
-    destruct (IH (exec_bop s b) (exec_bop_hp_ids N s b Hf)) as [A1 A2]. split; [exact A1|].
-    intros c n o Hin. specialize (A2 c n o Hin).
-    destruct (exec_bop_log s b) as [e [El Er]]. rewrite El in A2. destruct A2 as [->|A2]; [discriminate | exact A2].
+    intros N bs. induction bs as [|b r IH]; intros s Hf; [cbn; split; auto|].
+    assert (Hstep : Forall (fun x => (cid x < N)%nat) (hp (fst (run_body exec_bop r (exec_bop s b))))
+                    /\ (forall c n o, In (ERun c n o) (log (fst (run_body exec_bop r (exec_bop s b)))) -> In (ERun c n o) (log s))).
+    { destruct (IH (exec_bop s b) (exec_bop_hp_ids N s b Hf)) as [A1 A2]. split; [exact A1|].
+      intros c n o Hin. specialize (A2 c n o Hin).
+      destruct (exec_bop_log s b) as [El|[e [El Er]]]; rewrite El in A2; [exact A2|].
+      destruct A2 as [->|A2]; [discriminate | exact A2]. }
+    destruct b; try exact Hstep. cbn. split; auto.
   Qed.
 
   Lemma after_pop_old : forall (N : nat) tnow s c h',
@@ -566,7 +570,8 @@ Section WithBody.
       eapply Permutation_Forall; [apply Permutation_sym; exact Pq|]. constructor; assumption.
     - set (s1 := mkSt h' (nw s) (cancels s) (now s) (next s) (ERun c tnow (filter active h') :: log s) (oof s)).
       destruct (exec_body_old N (body (cid c)) s1 Hr) as [B1 B2]. split; [exact B1|].
-      intros c0 n o Hin. cbn [emit log] in Hin. destruct Hin as [Hin|Hin]; [discriminate|].
+      intros c0 n o Hin. cbn zeta in Hin. cbn [emit log] in Hin.
+      destruct Hin as [Hin|Hin]; [destruct (snd _); discriminate|].
       apply B2 in Hin. cbn [s1 log] in Hin. destruct Hin as [Hin|Hin]; [|left; exact Hin].
       inversion Hin; subst. right. exact Hc.
   Qed.
@@ -659,17 +664,21 @@ Section WithBody.
     In (ERun c n others) (log (run body fuel init ops)) -> Forall (fun o => getTime c <= getTime o) others.
   Proof. intros fuel ops c n others H. apply (reach_good fuel ops _ H). Qed.
 
+  Lemma run_body_now : forall bs s, now (fst (run_body exec_bop bs s)) = now s.
+  Proof.
+    intros bs s. apply (run_body_inv st exec_bop (fun x => now x = now s)); [|reflexivity].
+    intros x b Hx. rewrite exec_bop_now. exact Hx.
+  Qed.
+
   Lemma loop_now : forall fuel tnow s, now (loop body fuel tnow s) = now s.
   Proof.
-    assert (Hbs : forall bs s, now (fold_left exec_bop bs s) = now s).
-    { induction bs as [|b r IHr]; cbn; intros s; [reflexivity|]. rewrite IHr. apply exec_bop_now. }
     induction fuel as [|f IH]; intros tnow s; cbn [loop].
     - destruct (hp s); [reflexivity|]. destruct (_ <=? _); reflexivity.
     - destruct (hp s) as [|top t] eqn:E; [reflexivity|]. destruct (_ <=? _); [|reflexivity].
       destruct (heappop ctime dcall (top :: t)) as [[c h']|]; [|reflexivity].
       destruct (ccanc c); [rewrite IH; reflexivity|].
       destruct (0 <? cdelay c); [rewrite IH; reflexivity|].
-      rewrite IH. cbn. rewrite Hbs. reflexivity.
+      cbn zeta. rewrite IH. cbn [emit now]. rewrite run_body_now. reflexivity.
   Qed.
 
   (** an iteration that completes leaves only calls whose [time] is in the future in the heap *)
@@ -734,4 +743,16 @@ Example ex_runs :
   rev (run_ids (log s)) = [0; 2; 4; 3]%nat /\ rev (run_times (log s)) = [5; 6; 6; 8]
   /\ cancelled_ids (log s) = [1%nat] /\ pending s = [] /\ oof s = false
   /\ In (ETimeout (Some 5)) (log s) /\ In (ETimeout (Some 0)) (log s) /\ In (ETimeout None) (log s).
+Proof. vm_compute. repeat split; auto 20. Qed.
+
+(** a call function that raises: the reactor logs the failure and goes on; the call counts as run, the other
+    due calls run in the same iteration *)
+Definition ex_raise_body (i : nat) : list bop :=
+  match i with
+  | 0%nat => [BCallLater 0; BRaise; BCancel 1]
+  | _ => []
+  end.
+Example ex_raise :
+  let s := run ex_raise_body 60 init [Do (BCallLater 5); Do (BCallLater 5); Adv 5; RunUntilCurrent] in
+  rev (run_ids (log s)) = [0; 1]%nat /\ map cid (pending s) = [2%nat] /\ In (ERaise 0) (log s) /\ oof s = false.
 Proof. vm_compute. repeat split; auto 20. Qed.
